@@ -691,3 +691,1249 @@ def c05_histories(run, Nmax=3, walks=60, steps=12):
 
 
 REGISTRY['c05_histories'] = c05_histories
+
+
+# ------------------------------------------------------------------------------------------ C09 / C10 / C11
+def gf2_rank(m):
+    m = (np.array(m, dtype=np.int64) % 2).copy()
+    r = 0
+    rows, cols = m.shape
+    for c in range(cols):
+        piv = None
+        for i in range(r, rows):
+            if m[i, c]:
+                piv = i
+                break
+        if piv is None:
+            continue
+        m[[r, piv]] = m[[piv, r]]
+        for i in range(rows):
+            if i != r and m[i, c]:
+                m[i] = (m[i] + m[r]) % 2
+        r += 1
+        if r == rows:
+            break
+    return r
+
+
+def random_gate(rng, N):
+    """a deterministic gate on an ascending qubit tuple: generator gate, map gate, backward-map gate or named gate"""
+    kind = int(rng.integers(0, 5))
+    if kind == 0:
+        g = gens.bits(rng, 2 * N)
+        while not g.any():
+            g = gens.bits(rng, 2 * N)
+        return pcirc.clifford_rotation_gate(P(g, int(2 * rng.integers(0, 2)))), 'rot(%s)' % lst(g)
+    n = int(rng.integers(1, min(N, 2) + 1))
+    q = tuple(sorted(rng.choice(N, size=n, replace=False).tolist()))
+    if kind == 1:
+        gate = pcirc.CliffordGate(*q)
+        gm, pm = all_maps(n, rng, 1)[int(rng.integers(0, 24)) if n == 1 else 0]
+        gate.set_forward_map(CM(gm, pm))
+        return gate, 'fmap%s' % (q,)
+    if kind == 2:
+        gate = pcirc.CliffordGate(*q)
+        gm, pm = all_maps(n, rng, 1)[int(rng.integers(0, 24)) if n == 1 else 0]
+        gate.set_backward_map(CM(gm, pm))
+        return gate, 'bmap%s' % (q,)
+    if kind == 3:
+        name = ['H', 'S', 'X', 'Y', 'Z'][int(rng.integers(0, 5))]
+        return getattr(pcirc, name)(q[0]), '%s(%d)' % (name, q[0])
+    if N >= 2 and rng.integers(0, 2):
+        c, t = rng.choice(N, size=2, replace=False).tolist()
+        return pcirc.CNOT(c, t), 'CNOT(%d,%d)' % (c, t)
+    k = int(rng.integers(0, 24))
+    return pcirc.C(k, q[0]), 'C(%d,%d)' % (k, q[0])
+
+
+def probe_objects(rng, N):
+    S = O.all_strings(N) if N <= 2 else [gens.bits(rng, 2 * N) for _ in range(20)]
+    lst_ = PL(np.array(S), rng.integers(0, 4, len(S)))
+    gs, ps = gens.rand_tableau(rng, N)
+    st = mk_state(gs, ps, int(rng.integers(0, N + 1)))
+    return lst_, st
+
+
+def same_list(a, c):
+    return (np.asarray(a.gs) == np.asarray(c.gs)).all() and (np.asarray(a.ps) % 4 == np.asarray(c.ps) % 4).all()
+
+
+def same_state(a, c):
+    return same_list(a, c) and int(a.r) == int(c.r)
+
+
+def clone(o):
+    if isinstance(o, ps_.StabilizerState):
+        return mk_state(o.gs, o.ps, o.r)
+    return PL(o.gs.copy(), o.ps.copy())
+
+
+def c09_circuits(run, Nmax=3, programs=60, maxlen=6):
+    rng = np.random.default_rng(run.seed)
+    b = B('%d random gate programs, length <= %d, N <= %d, x {CliffordCircuit, Circuit} x {uncompiled, layer-compiled, circuit-compiled} x {original, copy, composed halves}; inputs: all strings (N<=2)/20 random strings with phases + one random state' % (programs, maxlen, Nmax))
+    for pi in range(programs):
+        N = int(rng.integers(1, Nmax + 1))
+        L = int(rng.integers(1, maxlen + 1))
+        gates = [random_gate(rng, N) for _ in range(L)]
+        names = [nm for _, nm in gates]
+        lst0, st0 = probe_objects(rng, N)
+        # reference: one gate at a time, in the order added
+        refl, refs = clone(lst0), clone(st0)
+        try:
+            for g, _ in gates:
+                g.copy().forward(refl)
+                g.copy().forward(refs)
+        except Exception as e:
+            b.fail('gate_forward.raises', repr(e)[:200], {'program': names, 'N': N})
+            continue
+        for cls in ('CliffordCircuit', 'Circuit'):
+            for comp in ('none', 'layers', 'circuit'):
+                for shape in ('original', 'copy', 'composed'):
+                    if cls == 'Circuit' and shape != 'original':
+                        continue          # Circuit has no copy/compose
+                    b.case(sample={'program': names, 'N': N, 'cls': cls, 'compiled': comp, 'shape': shape})
+                    inp = {'program': names, 'N': N, 'cls': cls, 'compiled': comp, 'shape': shape}
+                    try:
+                        mk = (lambda: pcirc.CliffordCircuit(N)) if cls == 'CliffordCircuit' else (lambda: pcirc.Circuit(N))
+                        if shape == 'composed':
+                            c1, c2 = mk(), mk()
+                            h = L // 2
+                            for g, _ in gates[:h]:
+                                c1.take(g.copy())
+                            for g, _ in gates[h:]:
+                                c2.take(g.copy())
+                            circ = c1.compose(c2)
+                        else:
+                            circ = mk()
+                            for g, _ in gates:
+                                circ.take(g.copy())
+                        if comp == 'layers':
+                            for layer in circ.layers_forward():
+                                layer.compile(N)
+                        elif comp == 'circuit':
+                            circ.compile()
+                        if shape == 'copy':
+                            circ = circ.copy()
+                        l1, s1 = clone(lst0), clone(st0)
+                        circ.forward(l1)
+                        circ.forward(s1)
+                    except Exception as e:
+                        b.fail('circuit_forward.raises', repr(e)[:200], inp)
+                        continue
+                    if not same_list(l1, refl):
+                        b.fail('circuit_order_%s_%s' % (comp, shape), 'circuit.forward(PauliList) differs from gate-by-gate application', inp)
+                    okT, why = O.tableau_ok(s1.gs, s1.ps, s1.r)
+                    if not okT or not O.eq(O.rho(s1), O.rho(refs)):
+                        b.fail('circuit_state_%s_%s' % (comp, shape), 'circuit.forward(state) differs from gate-by-gate application', inp)
+        # locality of every single gate
+        for g, nm in gates:
+            q = set(int(x) for x in g.qubits)
+            for k in range(N):
+                if k in q:
+                    continue
+                for xz in (0, 1):
+                    e = np.zeros(2 * N, dtype=np.int64)
+                    e[2 * k + xz] = 1
+                    o = P(e.copy(), 1)
+                    g.copy().forward(o)
+                    b.case()
+                    if not ((o.g == e).all() and o.p == 1):
+                        b.fail('gate_locality', 'gate %s changed an operator on qubit %d' % (nm, k), {'gate': nm, 'N': N})
+    return b.result()
+
+
+REGISTRY['c09_circuits'] = c09_circuits
+
+
+def c10_inverse(run, Nmax=3, programs=60, maxlen=6):
+    rng = np.random.default_rng(run.seed)
+    b = B('%d random gate programs (as C09) x {gate, layer, circuit} x {uncompiled, compiled} x both orders, on Pauli lists with all phases and states with rank' % programs)
+    for pi in range(programs):
+        N = int(rng.integers(1, Nmax + 1))
+        L = int(rng.integers(1, maxlen + 1))
+        gates = [random_gate(rng, N) for _ in range(L)]
+        names = [nm for _, nm in gates]
+        lst0, st0 = probe_objects(rng, N)
+
+        def roundtrip(obj, what, ident, inp):
+            for order in ('fb', 'bf'):
+                for proto in (lst0, st0):
+                    o = clone(proto)
+                    b.case(sample=inp)
+                    try:
+                        if order == 'fb':
+                            obj.forward(o); obj.backward(o)
+                        else:
+                            obj.backward(o); obj.forward(o)
+                    except Exception as e:
+                        b.fail(ident + '.raises', repr(e)[:200], inp)
+                        return
+                    same = same_state(o, proto) if isinstance(proto, ps_.StabilizerState) else same_list(o, proto)
+                    if not same:
+                        b.fail(ident, '%s: %s does not restore the %s' % (what, 'backward(forward(x))' if order == 'fb' else 'forward(backward(x))',
+                                                                    'state' if isinstance(proto, ps_.StabilizerState) else 'Pauli list'), inp)
+                        return
+        for g, nm in gates:
+            roundtrip(g.copy(), 'gate ' + nm, 'gate_inverse', {'gate': nm, 'N': N})
+            try:
+                roundtrip(g.copy().compile(), 'compiled gate ' + nm, 'gate_inverse_compiled', {'gate': nm, 'N': N})
+            except Exception as e:
+                b.fail('gate_compile.raises', repr(e)[:200], {'gate': nm})
+        for cls in ('CliffordCircuit', 'Circuit'):
+            for comp in ('none', 'layers', 'circuit'):
+                inp = {'program': names, 'N': N, 'cls': cls, 'compiled': comp}
+                try:
+                    circ = pcirc.CliffordCircuit(N) if cls == 'CliffordCircuit' else pcirc.Circuit(N)
+                    for g, _ in gates:
+                        circ.take(g.copy())
+                    if comp == 'layers':
+                        for layer in circ.layers_forward():
+                            layer.compile(N)
+                    elif comp == 'circuit':
+                        circ.compile()
+                except Exception as e:
+                    b.fail('circuit_build.raises', repr(e)[:200], inp)
+                    continue
+                roundtrip(circ, 'circuit', 'circuit_inverse_%s' % comp, inp)
+                for layer in circ.layers_forward():
+                    roundtrip(layer, 'layer', 'layer_inverse_%s' % comp, inp)
+    return b.result()
+
+
+REGISTRY['c10_inverse'] = c10_inverse
+
+
+def c11_named(run, Nmax=3):
+    b = B('the complete finite tables (H,S,X,Y,Z, both CNOT orientations, C(0..23)) x all placements in registers N <= %d' % Nmax, exhaustive=True)
+    Xs, Zs, Ys = [1, 0], [0, 1], [1, 1]
+    # textbook images (from the property statement): gate -> {X: (string, sign), Z: (string, sign)}
+    book = {'H': {'X': (Zs, 0), 'Z': (Xs, 0)}, 'S': {'X': (Ys, 0), 'Z': (Zs, 0)},
+            'X': {'X': (Xs, 0), 'Z': (Zs, 2)}, 'Y': {'X': (Xs, 2), 'Z': (Zs, 2)}, 'Z': {'X': (Xs, 2), 'Z': (Zs, 0)}}
+    for N in range(1, Nmax + 1):
+        for q in range(N):
+            for name, img in book.items():
+                b.case(sample={'gate': name, 'qubit': q, 'N': N})
+                gate = getattr(pcirc, name)(q)
+                for k in range(N):
+                    for xz, lab in ((0, 'X'), (1, 'Z')):
+                        e = np.zeros(2 * N, dtype=np.int64)
+                        e[2 * k + xz] = 1
+                        o = P(e.copy(), 0)
+                        gate.forward(o)
+                        want = e.copy()
+                        wp = 0
+                        if k == q:
+                            want[2 * k:2 * k + 2] = img[lab][0]
+                            wp = img[lab][1]
+                        if not ((o.g == want).all() and o.p % 4 == wp):
+                            b.fail('named_' + name, '%s(%d) maps %s_%d to (%s,%d), textbook (%s,%d)' % (name, q, lab, k, lst(o.g), o.p, lst(want), wp), {'gate': name, 'q': q, 'N': N})
+        for c in range(N):
+            for t in range(N):
+                if c == t:
+                    continue
+                b.case(sample={'gate': 'CNOT', 'c': c, 't': t, 'N': N})
+                gate = pcirc.CNOT(c, t)
+                for k in range(N):
+                    for xz in (0, 1):
+                        e = np.zeros(2 * N, dtype=np.int64)
+                        e[2 * k + xz] = 1
+                        want = e.copy()
+                        if k == c and xz == 0:
+                            want[2 * t] = 1          # X_c -> X_c X_t
+                        if k == t and xz == 1:
+                            want[2 * c + 1] = 1      # Z_t -> Z_c Z_t
+                        o = P(e.copy(), 0)
+                        gate.forward(o)
+                        if not ((o.g == want).all() and o.p % 4 == 0):
+                            b.fail('named_CNOT', 'CNOT(%d,%d) maps %s to (%s,%d), textbook %s' % (c, t, lst(e), lst(o.g), o.p, lst(want)), {'c': c, 't': t, 'N': N})
+    # the 24 indexed gates
+    tables = []
+    for k in range(24):
+        b.case(sample={'C': k})
+        ok, g = guard(b, 'C_ctor', lambda: pcirc.C(k, 0))
+        if not ok:
+            continue
+        m = g.forward_map
+        if not (O.map_images_ok(m.gs, 1) and set(int(x) for x in m.ps) <= {0, 2}):
+            b.fail('C_valid', 'C(%d) is not a valid Clifford map' % k, {'k': k})
+        tables.append((tuple(m.gs.ravel().tolist()), tuple(int(x) % 4 for x in m.ps)))
+    if len(set(tables)) != 24:
+        dup = [k for k in range(len(tables)) if tables[k] in tables[:k]]
+        b.fail('C_distinct', 'C(0..23) yields only %d distinct gates (duplicates at %s)' % (len(set(tables)), dup), {'dups': dup})
+    tabset = set(tables)
+    for i in range(24):
+        mi = pcirc.C(i, 0).forward_map
+        inv = mi.inverse()
+        if (tuple(inv.gs.ravel().tolist()), tuple(int(x) % 4 for x in inv.ps)) not in tabset:
+            b.fail('C_closed_inverse', 'inverse of C(%d) is not among C(0..23)' % i, {'i': i})
+        for j in range(24):
+            b.case()
+            mj = pcirc.C(j, 0).forward_map
+            cc = mi.compose(mj)
+            if (tuple(cc.gs.ravel().tolist()), tuple(int(x) % 4 for x in cc.ps)) not in tabset:
+                b.fail('C_closed_compose', 'C(%d) then C(%d) is not among C(0..23)' % (i, j), {'i': i, 'j': j})
+    for bad in (-1, 24, 100):
+        b.case()
+        try:
+            pcirc.C(bad, 0)
+            b.fail('C_reject', 'C(%d) accepted' % bad, {'k': bad})
+        except ValueError:
+            pass
+    for ctor, args in (('H', (0, 1)), ('S', ()), ('X', (0, 1)), ('Y', (0, 1, 2)), ('Z', ()), ('CNOT', (0,)), ('CNOT', (0, 1, 2)), ('C', (3, 0, 1)), ('C', (3,))):
+        b.case()
+        try:
+            getattr(pcirc, ctor)(*args)
+            b.fail('arity_reject', '%s%s accepted' % (ctor, args), {'ctor': ctor, 'args': list(args)})
+        except ValueError:
+            pass
+    return b.result()
+
+
+REGISTRY['c11_named'] = c11_named
+
+
+# ------------------------------------------------------------------------------------------ C12
+def basis_projector(bits_):
+    N = len(bits_)
+    idx = int(''.join(map(str, bits_)), 2) if N else 0
+    R = np.zeros((2 ** N, 2 ** N), dtype=complex)
+    R[idx, idx] = 1
+    return R
+
+
+def c12_states(run, Nmax=3, count=30):
+    rng = np.random.default_rng(run.seed)
+    b = B('N<=%d: all 24 maps (N=1) / %d random valid maps with random signs x all ranks; constructors for N<=%d; independent commuting stabilizer lists of every length, all signs, three input formats' % (Nmax, count, Nmax))
+    for N in range(1, Nmax + 1):
+        D = 2 ** N
+        for gm, pm in all_maps(N, rng, count):
+            m = CM(gm, pm)
+            for r in [None] + list(range(N + 1)):
+                b.case(sample={'map': lst(gm), 'signs': lst(pm), 'r': r})
+                ok, st = guard(b, 'to_state', lambda: m.to_state(r) if r is not None else m.to_state(), {'map': lst(gm)})
+                if not ok:
+                    continue
+                rr = 0 if r is None else r
+                good = st.r == rr
+                for i in range(N):
+                    good = good and (st.gs[i] == gm[2 * i + 1]).all() and st.ps[i] == pm[2 * i + 1] \
+                        and (st.gs[N + i] == gm[2 * i]).all() and st.ps[N + i] == pm[2 * i]
+                if not good:
+                    b.fail('to_state', 'to_state: stabilizers are not the Z-images / destabilizers not the X-images with their signs', {'map': lst(gm), 'signs': lst(pm), 'r': r})
+                    continue
+                # the state is the map applied to |0..0>: rho = prod (1 + image(Z_i))/2 over active i
+                want = np.eye(D, dtype=complex)
+                for i in range(rr, N):
+                    want = want @ (np.eye(D) + O.dense(gm[2 * i + 1], pm[2 * i + 1])) / 2
+                want = want / 2 ** rr
+                if not O.eq(O.rho(st), want):
+                    b.fail('to_state_dense', 'to_state does not denote the map applied to |0..0>', {'map': lst(gm), 'signs': lst(pm), 'r': r})
+                back = st.to_map()
+                if not ((back.gs == gm).all() and (back.ps == pm).all()):
+                    b.fail('to_map_roundtrip', 'to_state().to_map() differs from the map', {'map': lst(gm), 'signs': lst(pm)})
+                ok, q = guard(b, 'to_qutip', lambda: st.to_qutip().full(), {})
+                if ok and not O.eq(np.asarray(q), O.rho(st)):
+                    b.fail('to_qutip', 'to_qutip differs from the normalised product of stabilizer projectors', {'map': lst(gm), 'signs': lst(pm), 'r': r})
+        # named constructors
+        checks = [('zero_state', lambda: pc.zero_state(N), basis_projector([0] * N), 0),
+                  ('one_state', lambda: ps_.one_state(N), basis_projector([1] * N), 0),
+                  ('maximally_mixed_state', lambda: pc.maximally_mixed_state(N), np.eye(D) / D, N)]
+        if N >= 2:
+            v = np.zeros(D, dtype=complex)
+            v[0] = v[-1] = 1 / np.sqrt(2)
+            checks.append(('ghz_state', lambda: pc.ghz_state(N), np.outer(v, v.conj()), 0))
+        for name, f, want, r in checks:
+            b.case(sample={'ctor': name, 'N': N})
+            ok, st = guard(b, name, f, {'N': N})
+            if ok:
+                okT, why = O.tableau_ok(st.gs, st.ps, st.r)
+                if not okT or st.r != r or not O.eq(O.rho(st), want):
+                    b.fail(name, '%s(%d) does not denote the documented state (%s)' % (name, N, why), {'N': N})
+        for _ in range(10):
+            b.case()
+            ok, st = guard(b, 'random_bit_state', lambda: ps_.random_bit_state(N), {'N': N})
+            if ok:
+                okT, why = O.tableau_ok(st.gs, st.ps, st.r)
+                R = O.rho(st) if okT else None
+                if not okT or st.r != 0 or abs(np.abs(np.diag(R)).max() - 1) > 1e-9:
+                    b.fail('random_bit_state', 'random_bit_state is not a computational basis state: ' + why, {'N': N, 'state': state_json(st)})
+            ok, st = guard(b, 'random_pauli_state', lambda: pc.random_pauli_state(N), {'N': N})
+            if ok:
+                okT, why = O.tableau_ok(st.gs, st.ps, st.r)
+                prod = okT and all(O.vn_entropy(O.ptrace(O.rho(st), [q], N)) < 1e-9 for q in range(N))
+                if not prod:
+                    b.fail('random_pauli_state', 'random_pauli_state is not a valid product state ' + why, {'N': N, 'state': state_json(st)})
+        # stabilizer_state from independent commuting signed lists
+        for _ in range(25):
+            L = int(rng.integers(1, N + 1))
+            obs = commuting_obs(rng, N, L)
+            gsx = np.array([g for g, _ in obs])
+            psx = np.array([p for _, p in obs])
+            if len(obs) < L or gf2_rank(gsx) < L:
+                continue
+            want = np.eye(D, dtype=complex)
+            for g, p in obs:
+                want = want @ (np.eye(D) + O.dense(g, p)) / 2
+            want = want / np.trace(want)
+            letters = {(0, 0): 'I', (1, 0): 'X', (1, 1): 'Y', (0, 1): 'Z'}
+            strs = [('-' if p == 2 else '+') + ''.join(letters[(int(g[2 * k]), int(g[2 * k + 1]))] for k in range(N)) for g, p in obs]
+            for fmt, arg in (('PauliList', lambda: pc.stabilizer_state(PL(gsx, psx))), ('strings', lambda: pc.stabilizer_state(*strs)),
+                             ('list_of_strings', lambda: pc.stabilizer_state(strs))):
+                b.case(sample={'stabilizers': strs, 'format': fmt})
+                snap = (gsx.copy(), psx.copy())
+                ok, st = guard(b, 'stabilizer_state', arg, {'stabilizers': strs, 'format': fmt})
+                if not ok:
+                    continue
+                okT, why = O.tableau_ok(st.gs, st.ps, st.r)
+                if not okT or st.r != N - L or not O.eq(O.rho(st), want):
+                    b.fail('stabilizer_state', 'stabilizer_state is not the normalised projector onto the joint +1 eigenspace (%s, r=%s)' % (why, st.r), {'stabilizers': strs, 'format': fmt})
+                if not ((gsx == snap[0]).all() and (psx == snap[1]).all()):
+                    b.fail('stabilizer_state_args', 'stabilizer_state changed its argument', {'stabilizers': strs})
+        # anticommuting input must raise
+        for _ in range(10):
+            g1 = gens.bits(rng, 2 * N)
+            g2 = gens.bits(rng, 2 * N)
+            if O.eq(O.dense(g1) @ O.dense(g2), O.dense(g2) @ O.dense(g1)):
+                continue
+            b.case()
+            try:
+                pc.stabilizer_state(PL(np.array([g1, g2]), np.array([0, 0])))
+                b.fail('stabilizer_state_anticommuting', 'anticommuting stabilizers accepted', {'g1': lst(g1), 'g2': lst(g2)})
+            except ValueError:
+                pass
+            except Exception as e:
+                b.fail('stabilizer_state_anticommuting', 'raised %r instead of ValueError' % e, {})
+    return b.result()
+
+
+REGISTRY['c12_states'] = c12_states
+
+
+# ------------------------------------------------------------------------------------------ C14
+def zstring(N, q):
+    g = np.zeros(2 * N, dtype=np.int64)
+    g[2 * q + 1] = 1
+    return g
+
+
+def c14_trajectory(run, Nmax=3, programs=60):
+    rng = np.random.default_rng(run.seed)
+    b = B('%d random circuits interleaving gates and measurement layers (<= 6 items, N <= %d), pure and mixed inputs; post-selection: all signed strings on random pure states N <= %d, both outcomes' % (programs, Nmax, Nmax))
+    # measurement layer == direct measurement (checked against the dense projection; the coin is whatever numba drew)
+    for _ in range(programs):
+        N = int(rng.integers(1, Nmax + 1))
+        gs, ps = gens.rand_tableau(rng, N)
+        r = int(rng.integers(0, N + 1))
+        st = mk_state(gs, ps, r)
+        q = tuple(rng.choice(N, size=int(rng.integers(1, N + 1)), replace=False).tolist())
+        R = O.rho(st)
+        inp = {'state': state_json(st), 'qubits': list(q)}
+        layer = pcirc.MeasureLayer(*q, N=N)
+        b.case(sample=inp)
+        ok, _ = guard(b, 'measure_layer', lambda: layer.forward(st), inp)
+        if not ok:
+            continue
+        res = layer.result
+        prob = 1.0
+        good = len(res) == len(q) and all(int(x) in (1, -1) for x in res)
+        if good:
+            for qq, o in zip(q, res):
+                Pi = (np.eye(2 ** N) + int(o) * O.dense(zstring(N, qq))) / 2
+                Rn = Pi @ R @ Pi
+                pk = np.trace(Rn).real
+                if pk < 1e-12:
+                    good = False
+                    break
+                prob *= pk
+                R = Rn / pk
+        okT, why = O.tableau_ok(st.gs, st.ps, st.r)
+        if not good or not okT:
+            b.fail('measure_layer_result', 'measurement layer returned impossible/ill-formed outcomes or broke the state (%s)' % why, inp)
+        elif not O.eq(O.rho(st), R):
+            b.fail('measure_layer_state', 'state (or rank) after the layer is not the projected state', dict(inp, result=lst(res), r_after=int(st.r)))
+        elif abs(2.0 ** layer.log2prob - prob) > 1e-9:
+            b.fail('measure_layer_log2prob', 'layer.log2prob %r, Born probability %r' % (layer.log2prob, prob), inp)
+    # circuits with mid-circuit measurements
+    for _ in range(programs):
+        N = int(rng.integers(1, Nmax + 1))
+        items = []
+        circ = pcirc.Circuit(N)
+        nitems = int(rng.integers(2, 7))
+        for k in range(nitems):
+            if rng.integers(0, 3) == 0:
+                q = tuple(rng.choice(N, size=int(rng.integers(1, N + 1)), replace=False).tolist())
+                items.append(('M', q))
+                circ.measure(*q)
+            else:
+                g, nm = random_gate(rng, N)
+                items.append(('G', g, nm))
+                circ.take(g.copy())
+        gs, ps = gens.rand_tableau(rng, N)
+        pure_in = bool(rng.integers(0, 2))
+        st = mk_state(gs, ps, 0 if pure_in else int(rng.integers(0, N + 1)))
+        inp = {'items': [(i[0], list(i[1]) if i[0] == 'M' else i[2]) for i in items], 'state': state_json(st)}
+        R = O.rho(st)
+        b.case(sample=inp)
+        ok, _ = guard(b, 'circuit_with_measure', lambda: circ.forward(st), inp)
+        if not ok:
+            continue
+        rec = list(circ.measure_result)
+        nm_expected = sum(len(i[1]) for i in items if i[0] == 'M')
+        if len(rec) != nm_expected or circ.num_of_measures != nm_expected:
+            b.fail('circuit_record_length', 'measure_result has %d entries for %d measured qubits' % (len(rec), nm_expected), inp)
+            continue
+        # dense trajectory in program order with the recorded outcomes
+        ref = mk_state(gs, ps, st.r if False else (0 if pure_in else inp['state']['r']))
+        ptr = 0
+        prob = 1.0
+        good = True
+        Rt = R
+        for it in items:
+            if it[0] == 'G':
+                tmp = mk_state(ref.gs, ref.ps, ref.r)
+                it[1].copy().forward(ref)
+                # dense action of the gate derived from the (C09-checked) gate on the reference state
+                Rt = None
+            else:
+                for qq in it[1]:
+                    o = int(rec[ptr]); ptr += 1
+                    if Rt is None:
+                        Rt = O.rho(ref)
+                    Pi = (np.eye(2 ** N) + o * O.dense(zstring(N, qq))) / 2
+                    Rn = Pi @ Rt @ Pi
+                    pk = np.trace(Rn).real
+                    if pk < 1e-12:
+                        good = False
+                        break
+                    prob *= pk
+                    Rt = Rn / pk
+                    # keep the reference state in sync by post-selecting it through the measurement kernel
+                    ref = project_state(ref, zstring(N, qq), 0 if o == 1 else 2)
+                if not good:
+                    break
+        if not good:
+            b.fail('circuit_impossible_record', 'recorded outcomes have probability zero along the program order', inp)
+            continue
+        if not O.eq(O.rho(st), O.rho(ref)):
+            b.fail('circuit_trajectory', 'final state differs from the trajectory in program order (a gate moved across a measurement, or the update is wrong)', dict(inp, record=rec))
+        if abs(2.0 ** circ.log2prob - prob) > 1e-9:
+            b.fail('circuit_log2prob', 'accumulated log2prob %r, trajectory probability %r' % (circ.log2prob, prob), dict(inp, record=rec))
+        # backward with the recorded outcomes on the final pure state must be possible (probability one each)
+        if pure_in:
+            fin = mk_state(st.gs, st.ps, st.r)
+            ok, _ = guard(b, 'circuit_backward', lambda: circ.backward(fin), dict(inp, record=rec))
+            if ok:
+                okT, why = O.tableau_ok(fin.gs, fin.ps, fin.r)
+                if not okT:
+                    b.fail('circuit_backward_state', 'backward left an invalid state: ' + why, inp)
+                else:
+                    # adjoint of the recorded trajectory K = ... Pi_2 U_2 Pi_1 U_1 :  sigma -> K^dagger sigma K / tr, computed
+                    # densely (gates act linearly on the Pauli expansion, projectors from the recorded outcomes)
+                    Rb = O.rho(st)
+                    ptr = len(rec)
+                    okb = True
+                    for it in reversed(items):
+                        if it[0] == 'G':
+                            Rb = lin_apply(lambda o, g=it[1]: g.copy().backward(o), Rb, N)
+                        else:
+                            for qq in reversed(it[1]):
+                                ptr -= 1
+                                Pi = (np.eye(2 ** N) + int(rec[ptr]) * O.dense(zstring(N, qq))) / 2
+                                Rb = Pi @ Rb @ Pi
+                                t = np.trace(Rb).real
+                                if t < 1e-12:
+                                    okb = False
+                                    break
+                                Rb = Rb / t
+                        if not okb:
+                            break
+                    if not okb or not O.eq(O.rho(fin), Rb):
+                        b.fail('circuit_backward_adjoint', 'backward(final state) is not the adjoint of the recorded trajectory', dict(inp, record=rec))
+            # an impossible record must raise
+            if rec:
+                flipped = [-x for x in rec]
+                fin = mk_state(st.gs, st.ps, st.r)
+                try:
+                    circ.backward(fin, measure_result=flipped)
+                    b.fail('circuit_backward_impossible', 'backward accepted a record that contradicts the final state', dict(inp, record=flipped))
+                except ValueError:
+                    pass
+                except Exception as e:
+                    b.fail('circuit_backward.raises', repr(e)[:200], inp)
+    # post-selection on pure states
+    for N in range(1, Nmax + 1):
+        S = O.all_strings(N)
+        for gs, ps in tableaux(N, rng, 12)[:24]:
+            for g in (S if N <= 2 else [S[i] for i in rng.choice(len(S), 12, replace=False)]):
+                if not g.any():
+                    continue
+                for pg in (0, 2):
+                    for want_out in (0, 1):
+                        st = mk_state(gs, ps, 0)
+                        R = O.rho(st)
+                        Pi = (np.eye(2 ** N) + (-1) ** want_out * O.dense(g, pg)) / 2
+                        pr = np.trace(Pi @ R).real
+                        inp = {'state': state_json(st), 'P': lst(g), 'sign': pg, 'outcome': want_out}
+                        b.case(sample=inp)
+                        ok, val = guard(b, 'postselect', lambda: st.postselect(P(g, pg), want_out), inp)
+                        if not ok:
+                            continue
+                        if abs(val - pr) > 1e-9:
+                            b.fail('postselect_prob', 'postselect returned %r, Born probability %r' % (val, pr), inp)
+                        elif pr < 1e-12:
+                            if not O.eq(O.rho(st), R):
+                                b.fail('postselect_zero_state', 'state changed although the outcome is impossible', inp)
+                        elif not O.eq(O.rho(st), Pi @ R @ Pi / pr) or not O.tableau_ok(st.gs, st.ps, st.r)[0]:
+                            b.fail('postselect_state', 'state after postselect is not the projected state', inp)
+    return b.result()
+
+
+def lin_apply(fn, R, N):
+    """linear extension of a map on Pauli operators (fn mutates a Pauli in place) to an arbitrary matrix"""
+    out = np.zeros_like(R)
+    for g in O.all_strings(N):
+        c = np.trace(O.dense(g) @ R) / 2 ** N
+        if abs(c) < 1e-12:
+            continue
+        o = P(g.copy(), 0)
+        fn(o)
+        out = out + c * O.dense(o.g, o.p)
+    return out
+
+
+def project_state(st, g, p):
+    """reference projection of a state onto the +1 eigenspace of (g,p), through dense algebra -> new StabilizerState
+    obtained by running the real kernel with the sign forced (only used to keep a reference in sync; the result is
+    compared densely, so an error here shows up as a mismatch, never hides one)"""
+    N = st.N
+    ref = mk_state(st.gs, st.ps, st.r)
+    for _ in range(64):
+        t = mk_state(ref.gs, ref.ps, ref.r)
+        out, _ = t.measure(PL(np.array([g]), np.array([p])))
+        if int(out[0]) == 0:
+            return t
+    raise RuntimeError('could not realise the recorded outcome in 64 draws')
+
+
+REGISTRY['c14_trajectory'] = c14_trajectory
+
+
+# ------------------------------------------------------------------------------------------ C15
+def rand_poly(rng, N, L):
+    gs = gens.bits(rng, L, 2 * N)
+    if L >= 2 and rng.integers(0, 2):
+        gs[1] = gs[0]            # repeated string
+    return pa.PauliPolynomial(gs, rng.integers(0, 4, L)).set_cs(np.round(rng.normal(size=L), 3) + 1j * np.round(rng.normal(size=L), 3))
+
+
+def any_dense(x, N):
+    if isinstance(x, pa.PauliPolynomial):
+        return poly_dense(x)
+    if isinstance(x, pa.PauliMonomial):
+        return x.c * O.dense(x.g, x.p)
+    if isinstance(x, pa.Pauli):
+        return O.dense(x.g, x.p)
+    return complex(x) * np.eye(2 ** N)
+
+
+def c15_algebra(run, Nmax=2, trees=300):
+    rng = np.random.default_rng(run.seed)
+    b = B('%d random expression trees over {Pauli, monomial, polynomial (<= 3 terms, repeated strings, all phases, complex coefficients), number}, N <= %d, operations + - * / @ neg reduce trace; dense comparison; to_qutip exports' % (trees, Nmax))
+    for _ in range(trees):
+        N = int(rng.integers(1, Nmax + 1))
+
+        def operand():
+            k = int(rng.integers(0, 4))
+            if k == 0:
+                return P(gens.bits(rng, 2 * N), int(rng.integers(0, 4)))
+            if k == 1:
+                return complex(np.round(rng.normal(), 2), np.round(rng.normal(), 2)) * P(gens.bits(rng, 2 * N), int(rng.integers(0, 4)))
+            return rand_poly(rng, N, int(rng.integers(1, 4)))
+        x, y = operand(), operand()
+        num = complex(np.round(rng.normal(), 2), np.round(rng.normal(), 2))
+        X_, Y_ = any_dense(x, N), any_dense(y, N)
+        ops = [('add', lambda: x + y, X_ + Y_), ('sub', lambda: x - y, X_ - Y_), ('matmul', lambda: x @ y, X_ @ Y_),
+               ('neg', lambda: -x, -X_), ('rmul', lambda: num * x, num * X_), ('div', lambda: x / num, X_ / num),
+               ('add_number', lambda: x + num, X_ + num * np.eye(2 ** N)), ('radd_number', lambda: num + x, X_ + num * np.eye(2 ** N)),
+               ('rmul_i', lambda: 1j * x, 1j * X_), ('rmul_m1', lambda: -1 * x, -X_)]
+        for name, f, want in ops:
+            inp = {'x': describe(x), 'y': describe(y), 'num': [num.real, num.imag], 'op': name}
+            b.case(sample=inp)
+            ok, res = guard(b, 'alg_' + name, f, inp)
+            if not ok:
+                continue
+            if not O.eq(any_dense(res, N), want):
+                b.fail('alg_' + name, 'result of %s is not the corresponding matrix operation' % name, inp)
+        if isinstance(x, pa.PauliPolynomial):
+            inp = {'x': describe(x)}
+            b.case()
+            ok, red = guard(b, 'reduce', lambda: x.reduce(), inp)
+            if ok:
+                if not np.allclose(poly_dense(red), X_, atol=1e-8):
+                    b.fail('reduce', 'reduce changed the operator', inp)
+                keys = [tuple(g) for g in red.gs]
+                if len(set(keys)) != len(keys) or (red.ps != 0).any():
+                    b.fail('reduce_form', 'reduce left repeated strings or phases', inp)
+            ok, tr = guard(b, 'trace', lambda: x.trace(), inp)
+            if ok and abs(tr - np.trace(X_)) > 1e-8:
+                trace_fail(b, x, tr, X_, N, inp)
+            ok, qt_ = guard(b, 'poly_to_qutip', lambda: np.asarray(x.to_qutip().full()), inp)
+            if ok and not O.eq(qt_, X_):
+                b.fail('poly_to_qutip', 'to_qutip differs from the matrix', inp)
+        else:
+            inp = {'x': describe(x)}
+            b.case()
+            ok, tr = guard(b, 'trace', lambda: x.trace(), inp)
+            if ok and abs(tr - np.trace(X_)) > 1e-8:
+                trace_fail(b, x, tr, X_, N, inp)
+            ok, qt_ = guard(b, 'to_qutip', lambda: np.asarray(x.to_qutip().full()), inp)
+            if ok and not O.eq(qt_, X_):
+                b.fail('to_qutip', 'to_qutip differs from the matrix', inp)
+        # linearity of rotations and maps
+        if isinstance(x, pa.PauliPolynomial):
+            g, pg = gens.bits(rng, 2 * N), int(2 * rng.integers(0, 2))
+            xr = x.copy().rotate_by(P(g, pg))
+            b.case()
+            if not O.eq(poly_dense(xr), O.conj(O.rot_U(g, pg), X_)):
+                b.fail('poly_rotate_linear', 'rotation does not act linearly on the polynomial', {'x': describe(x), 'G': lst(g)})
+    # tolerance: only terms below tol are dropped
+    for _ in range(20):
+        N = 1
+        x = pa.PauliPolynomial(np.array([[1, 0], [0, 1], [1, 0]]), np.array([0, 0, 2])).set_cs(np.array([1.0, 1e-12, 1.0 - 1e-3], dtype=complex))
+        red = x.reduce()
+        b.case()
+        if not np.allclose(poly_dense(red), poly_dense(x), atol=1e-9):
+            b.fail('reduce_tol', 'reduce changed the operator by more than the tolerance', describe(x))
+    lst_ = PL(np.array(O.all_strings(1)), np.arange(4))
+    b.case()
+    ok, ql = guard(b, 'list_to_qutip', lambda: [np.asarray(q.full()) for q in lst_.to_qutip()], {})
+    if ok and not all(O.eq(q, O.dense(g, p)) for q, g, p in zip(ql, lst_.gs, lst_.ps)):
+        b.fail('list_to_qutip', 'PauliList.to_qutip differs from the matrices', {})
+    return b.result()
+
+
+def trace_fail(b, x, tr, X_, N, inp):
+    """classify a wrong trace: the recorded finding F12 is exactly `the phase indicator of an identity-string term
+    is ignored` (trace computed as if every ps were 0); anything else is a different violation"""
+    if isinstance(x, pa.PauliPolynomial):
+        ign = sum(c * 2 ** N for g, c in zip(x.gs, x.cs) if not g.any())
+    elif isinstance(x, pa.PauliMonomial):
+        ign = x.c * 2 ** N if not x.g.any() else 0
+    else:
+        ign = 2 ** N if not x.g.any() else 0
+    if abs(tr - ign) < 1e-8:
+        b.fail('trace_ignores_phase', 'trace %r ignores the phase of identity terms, matrix trace %r' % (tr, np.trace(X_)), inp)
+    else:
+        b.fail('trace', 'trace %r, matrix trace %r' % (tr, np.trace(X_)), inp)
+
+
+def describe(x):
+    if isinstance(x, pa.PauliPolynomial):
+        return {'poly': poly_json(x)}
+    if isinstance(x, pa.PauliMonomial):
+        return {'monomial': [lst(x.g), int(x.p), [complex(x.c).real, complex(x.c).imag]]}
+    if isinstance(x, pa.Pauli):
+        return {'pauli': [lst(x.g), int(x.p)]}
+    return {'number': str(x)}
+
+
+REGISTRY['c15_algebra'] = c15_algebra
+
+
+# ------------------------------------------------------------------------------------------ C16
+def map_key(gs):
+    return tuple(np.asarray(gs).ravel().tolist())
+
+
+def c16_random(run, Nmax=3, samples=40, n1=4800, n2=36000):
+    rng = np.random.default_rng(run.seed)
+    b = B('validity: %d samples per sampler and N <= %d; uniformity: %d samples of random_clifford_map(1) over the 24 elements, %d samples of random_clifford(2) over the 720 symplectic classes (chi-square, threshold beyond 8 sigma), sign bits' % (samples, Nmax, n1, n2))
+    for N in range(1, Nmax + 1):
+        for _ in range(samples):
+            for name, f in (('random_clifford_map', lambda: pc.random_clifford_map(N)), ('random_pauli_map', lambda: ps_.random_pauli_map(N))):
+                b.case(sample={'sampler': name, 'N': N})
+                ok, m = guard(b, name, f, {'N': N})
+                if ok and not (O.map_images_ok(m.gs, N) and set(int(x) for x in m.ps) <= {0, 2} and np.isin(m.gs, (0, 1)).all()):
+                    b.fail(name + '_valid', 'sampled map violates the canonical commutation relations / Hermitian phases', {'gs': lst(m.gs), 'ps': lst(m.ps)})
+                if ok and name == 'random_pauli_map':
+                    blockdiag = all((m.gs[2 * i:2 * i + 2, :2 * i] == 0).all() and (m.gs[2 * i:2 * i + 2, 2 * i + 2:] == 0).all() for i in range(N))
+                    if not blockdiag:
+                        b.fail('random_pauli_product', 'random Pauli map is not a product of single-qubit Cliffords', {'gs': lst(m.gs)})
+            for name, f in (('random_clifford_state', lambda: pc.random_clifford_state(N, int(rng.integers(0, N + 1)))),
+                            ('random_pauli_state', lambda: pc.random_pauli_state(N, int(rng.integers(0, N + 1))))):
+                b.case()
+                ok, st = guard(b, name, f, {'N': N})
+                if ok:
+                    okT, why = O.tableau_ok(st.gs, st.ps, st.r)
+                    if not okT:
+                        b.fail(name + '_valid', 'sampled state invalid: ' + why, state_json(st))
+        if N % 2 == 0:
+            ctors = [('brickwall_rcc', lambda: pcirc.brickwall_rcc(N, 3))]
+        else:
+            ctors = []
+        ctors += [('onsite_rcc', lambda: pcirc.onsite_rcc(N)), ('global_rcc', lambda: pcirc.global_rcc(N))]
+        for name, f in ctors:
+            circ = f()
+            outs = set()
+            for _ in range(12):
+                b.case()
+                st = pc.zero_state(N)
+                ok, _ = guard(b, name, lambda: circ.forward(st), {'N': N})
+                if not ok:
+                    break
+                okT, why = O.tableau_ok(st.gs, st.ps, st.r)
+                if not okT:
+                    b.fail(name + '_valid', 'state after random circuit invalid: ' + why, state_json(st))
+                outs.add(map_key(st.gs) + tuple(int(x) for x in st.ps))
+            if len(outs) < 2:
+                b.fail(name + '_resample', 'random gates were not resampled between calls (12 identical outputs)', {'N': N})
+    # gates without maps resample at every call, in both directions, and are never cached
+    g = pcirc.CliffordGate(0, 1)
+    seen = set()
+    for _ in range(20):
+        o = PL(np.array(O.all_strings(2)), np.zeros(16, dtype=np.int64))
+        g.forward(o)
+        seen.add(map_key(o.gs))
+        o = PL(np.array(O.all_strings(2)), np.zeros(16, dtype=np.int64))
+        g.backward(o)
+        seen.add(map_key(o.gs))
+    b.case()
+    if len(seen) < 10 or g.forward_map is not None or g.backward_map is not None:
+        b.fail('gate_resample', 'a gate without maps did not resample (or cached a map)', {'distinct': len(seen)})
+    # uniformity N = 1 (all 24 elements)
+    counts = {}
+    for _ in range(n1):
+        m = pc.random_clifford_map(1)
+        k = map_key(m.gs) + tuple(int(x) for x in m.ps)
+        counts[k] = counts.get(k, 0) + 1
+    b.case(sample={'uniformity': 'N=1', 'classes_seen': len(counts)})
+    exp = n1 / 24.0
+    chi = sum((c - exp) ** 2 / exp for c in counts.values()) + (24 - len(counts)) * exp
+    if len(counts) != 24 or chi > 23 + 8 * np.sqrt(2 * 23):
+        b.fail('uniform_N1', 'random_clifford_map(1): %d of 24 elements seen, chi2 = %.1f (df 23)' % (len(counts), chi), {'counts': sorted(counts.values())})
+    # uniformity N = 2 (720 symplectic classes) and entangling
+    counts = {}
+    ent = 0
+    for _ in range(n2):
+        gs = pu.random_clifford(2)
+        counts[map_key(gs)] = counts.get(map_key(gs), 0) + 1
+    b.case(sample={'uniformity': 'N=2', 'classes_seen': len(counts)})
+    exp = n2 / 720.0
+    chi = sum((c - exp) ** 2 / exp for c in counts.values()) + (720 - len(counts)) * exp
+    bad = [k for k in counts if not O.map_images_ok(np.array(k).reshape(4, 4), 2)]
+    if bad:
+        b.fail('random_clifford_valid', 'random_clifford(2) returned an invalid table', {'gs': list(bad[0])})
+    if len(counts) != 720 or chi > 719 + 8 * np.sqrt(2 * 719):
+        b.fail('uniform_N2', 'random_clifford(2): %d of 720 symplectic classes seen, chi2 = %.1f (df 719)' % (len(counts), chi), {'classes': len(counts)})
+    # fair sign bits / measurement coins
+    ones = 0
+    tot = 0
+    for _ in range(400):
+        m = pc.random_clifford_map(2)
+        ones += int((m.ps == 2).sum())
+        tot += 4
+    b.case()
+    if abs(ones - tot / 2) > 8 * np.sqrt(tot / 4):
+        b.fail('sign_bits', 'sign bits of random maps are biased: %d of %d' % (ones, tot), {})
+    ones = 0
+    for _ in range(2000):
+        st = pc.zero_state(1)
+        out, _ = st.measure(PL(np.array([[1, 0]]), np.array([0])))
+        ones += int(out[0])
+    b.case()
+    if abs(ones - 1000) > 8 * np.sqrt(500):
+        b.fail('coin', 'measurement coin biased: %d of 2000' % ones, {})
+    return b.result()
+
+
+REGISTRY['c16_random'] = c16_random
+
+
+# ------------------------------------------------------------------------------------------ C17
+def arrays_of(o, depth=0):
+    """all numpy arrays reachable from an object (fields, gates, layers, maps)"""
+    out = []
+    if isinstance(o, np.ndarray):
+        return [o]
+    if depth > 6 or o is None or isinstance(o, (int, float, complex, str, bool, tuple)):
+        return out
+    if isinstance(o, (list,)):
+        for x in o:
+            out += arrays_of(x, depth + 1)
+        return out
+    d = getattr(o, '__dict__', None)
+    if d:
+        for k, v in d.items():
+            if k in ('prev_layer',):
+                continue
+            out += arrays_of(v, depth + 1)
+    return out
+
+
+def snapshot(o):
+    return [a.copy() for a in arrays_of(o)] + [getattr(o, 'r', None), getattr(o, 'p', None), getattr(o, 'c', None)]
+
+
+def snap_eq(a, c):
+    if len(a) != len(c):
+        return False
+    for x, y in zip(a, c):
+        if isinstance(x, np.ndarray):
+            if x.shape != y.shape or not (x == y).all():
+                return False
+        elif x != y:
+            return False
+    return True
+
+
+def shares(o1, o2):
+    for a in arrays_of(o1):
+        for c in arrays_of(o2):
+            if a.size and c.size and np.shares_memory(a, c):
+                return True
+    return False
+
+
+def c17_copies(run, Nmax=3, rounds=40):
+    rng = np.random.default_rng(run.seed)
+    b = B('%d rounds, N <= %d: every object kind copied, copy compared field by field and checked for shared memory, then mutated; %d query methods with before/after snapshots of receiver and arguments' % (rounds, Nmax, 16))
+    for _ in range(rounds):
+        N = int(rng.integers(1, Nmax + 1))
+        gs, ps = gens.rand_tableau(rng, N)
+        r = int(rng.integers(0, N + 1))
+        gm, pm = gens.state_to_map_order(gs, ps)
+        objs = {
+            'Pauli': P(gens.bits(rng, 2 * N), int(rng.integers(0, 4))),
+            'PauliList': PL(gens.bits(rng, 3, 2 * N), rng.integers(0, 4, 3)),
+            'PauliMonomial': (0.5 - 2j) * P(gens.bits(rng, 2 * N), int(rng.integers(0, 4))),
+            'PauliPolynomial': rand_poly(rng, N, 3),
+            'CliffordMap': CM(gm, pm),
+            'StabilizerState': mk_state(gs, ps, r),
+        }
+        gate = pcirc.CliffordGate(*range(N))
+        gate.set_forward_map(CM(gm, pm))
+        gate.compile()
+        rot = pcirc.clifford_rotation_gate(P(np.ones(2 * N, dtype=np.int64), 2))
+        circ = pcirc.CliffordCircuit(N)
+        for _k in range(4):
+            circ.take(random_gate(rng, N)[0])
+        circ.compile()
+        lone = pcirc.CliffordLayer(*[g_.copy() for g_ in circ.first_layer.gates]).compile(N)
+        objs.update({'CliffordGate(map)': gate, 'CliffordGate(generator)': rot, 'CliffordLayer': lone, 'CliffordCircuit': circ})
+        for kind, o in objs.items():
+            b.case(sample={'kind': kind, 'N': N})
+            before = snapshot(o)
+            ok, c = guard(b, 'copy_' + kind, lambda: o.copy(), {'kind': kind})
+            if not ok:
+                continue
+            if type(c) is not type(o) or not snap_eq(snapshot(c), before):
+                b.fail('copy_faithful_' + kind, 'copy of %s differs from the original (fields/phases/coefficients/rank/compiled maps)' % kind, {'kind': kind, 'N': N})
+                continue
+            if shares(c, o):
+                b.fail('copy_shares_' + kind, 'copy of %s shares array memory with the original' % kind, {'kind': kind})
+            for a in arrays_of(c):
+                if a.size:
+                    a.flat[0] = a.flat[0] + 1
+            if not snap_eq(snapshot(o), before):
+                b.fail('copy_independent_' + kind, 'mutating the copy of %s changed the original' % kind, {'kind': kind})
+        # queries: receiver and arguments unchanged
+        st = mk_state(gs, ps, r)
+        pure = mk_state(gs, ps, 0)
+        other = mk_state(*gens.rand_tableau(rng, N), int(rng.integers(0, N + 1)))
+        obs = PL(gens.bits(rng, 3, 2 * N), 2 * rng.integers(0, 2, 3))
+        poly = rand_poly(rng, N, 3)
+        m1, m2 = CM(gm, pm), CM(*gens.state_to_map_order(*gens.rand_tableau(rng, N)))
+        one = P(gens.bits(rng, 2 * N) | np.eye(1, 2 * N, 0, dtype=np.int64)[0], 0)
+        queries = [
+            ('expect(list)', st, [obs], lambda: st.expect(obs)),
+            ('expect(poly)', st, [poly], lambda: st.expect(poly)),
+            ('expect(state)', pure, [other], lambda: pure.expect(other)),
+            ('entropy', st, [], lambda: st.entropy(list(range(max(1, N // 2))))),
+            ('sample', st, [], lambda: st.sample(3)),
+            ('get_prob', pure, [], lambda: pure.get_prob(np.zeros(N, dtype=np.int64))),
+            ('density_matrix', st, [], lambda: st.density_matrix),
+            ('to_map', st, [], lambda: st.to_map()),
+            ('to_state', m1, [], lambda: m1.to_state()),
+            ('compose', m1, [m2], lambda: m1.compose(m2)),
+            ('inverse', m1, [], lambda: m1.inverse()),
+            ('repr', st, [], lambda: (repr(st), repr(m1), repr(poly))),
+            ('tokenize', st, [], lambda: st.tokenize()),
+            ('stabilizers', st, [], lambda: st.stabilizers),
+            ('stabilizer_state(list)', obs, [], lambda: pc.stabilizer_state(PL(st.gs[st.r:N].copy(), st.ps[st.r:N].copy())) if st.r < N else None),
+            ('diagonalize(pauli)', one, [], lambda: pcirc.diagonalize(one)),
+            ('diagonalize(state)', pure, [], lambda: pcirc.diagonalize(pure)),
+            ('to_qutip', st, [], lambda: st.to_qutip()),
+        ]
+        for name, recv, args, f in queries:
+            b.case(sample={'query': name, 'N': N})
+            sn = [snapshot(recv)] + [snapshot(a) for a in args]
+            ok, _ = guard(b, 'query_' + name, f, {'query': name, 'N': N})
+            if not ok:
+                continue
+            now = [snapshot(recv)] + [snapshot(a) for a in args]
+            if not all(snap_eq(x, y) for x, y in zip(sn, now)):
+                b.fail('query_side_effect_' + name, 'query %s changed its receiver or an argument' % name, {'query': name, 'N': N})
+        # in-place operations never change their arguments
+        g = P(gens.bits(rng, 2 * N), 2)
+        l_ = PL(gens.bits(rng, 3, 2 * N), rng.integers(0, 4, 3))
+        for name, args, f in (('rotate_by', [g], lambda: l_.rotate_by(g)), ('transform_by', [m1], lambda: l_.transform_by(m1)),
+                              ('measure', [obs], lambda: st.measure(obs)), ('gate.forward', [gate], lambda: gate.forward(l_)),
+                              ('state.rotate_by', [g], lambda: st.rotate_by(g)), ('state.transform_by', [m2], lambda: st.transform_by(m2))):
+            b.case()
+            sn = [snapshot(a) for a in args]
+            ok, _ = guard(b, 'inplace_' + name, f, {'op': name})
+            if ok and not all(snap_eq(x, snapshot(a)) for x, a in zip(sn, args)):
+                b.fail('inplace_changes_argument_' + name, 'in-place operation %s changed its argument' % name, {'op': name, 'N': N})
+    return b.result()
+
+
+REGISTRY['c17_copies'] = c17_copies
+
+
+# ------------------------------------------------------------------------------------------ C18
+def c18_diagonalize(run, Nmax=3, hams=40):
+    rng = np.random.default_rng(run.seed)
+    b = B('all non-identity strings x sign x all i0 x causal on/off for N <= %d; 12 random pure states per N; %d commuting-term Hamiltonians and %d arbitrary ones (N <= 3) for SBRG' % (Nmax, hams, hams // 2), exhaustive=False)
+    for N in range(1, Nmax + 1):
+        for g in O.all_strings(N):
+            if not g.any():
+                continue
+            for pg in (0, 2):
+                for i0 in range(N):
+                    for causal in (False, True):
+                        inp = {'P': lst(g), 'sign': pg, 'i0': i0, 'causal': causal}
+                        if causal and not g[2 * i0:].any():
+                            continue      # nothing supported on qubits >= i0
+                        b.case(sample=inp)
+                        op = P(g.copy(), pg)
+                        ok, circ = guard(b, 'diagonalize', lambda: pcirc.diagonalize(op, i0, causal=causal), inp)
+                        if not ok:
+                            continue
+                        if not ((op.g == g).all() and op.p == pg):
+                            b.fail('diagonalize_arg', 'diagonalize changed its argument', inp)
+                        res = P(g.copy(), pg)
+                        circ.forward(res)
+                        want = zstring(N, i0)
+                        if causal:
+                            if not ((res.g[2 * i0:] == want[2 * i0:]).all() and (res.g[:2 * i0] == g[:2 * i0]).all() and res.p in (0, 2)):
+                                b.fail('diagonalize_causal', 'causal circuit does not map the part on qubits >= i0 to Z_i0 / touches earlier qubits', inp)
+                            for layer in circ.layers_forward():
+                                for gate in layer.gates:
+                                    if min(gate.qubits) < i0:
+                                        b.fail('diagonalize_causal_support', 'causal circuit acts on a qubit before i0', inp)
+                        elif not ((res.g == want).all() and res.p in (0, 2)):
+                            b.fail('diagonalize_pauli', 'circuit maps the operator to (%s,%d), not +-Z on qubit %d' % (lst(res.g), res.p, i0), inp)
+        for gs, ps in tableaux(N, rng, 12)[:24]:
+            st = mk_state(gs, ps, 0)
+            inp = state_json(st)
+            b.case()
+            ok, circ = guard(b, 'diagonalize_state', lambda: pcirc.diagonalize(st), inp)
+            if not ok:
+                continue
+            w = mk_state(gs, ps, 0)
+            circ.forward(w)
+            if not O.eq(O.rho(w), basis_projector([0] * N)):
+                b.fail('diagonalize_state', 'circuit does not map the state to |0...0>', inp)
+            z = pc.zero_state(N)
+            circ.backward(z)
+            if not O.eq(O.rho(z), O.rho(st)):
+                b.fail('diagonalize_state_backward', 'backward pass does not re-encode the state', inp)
+    # SBRG
+    for k in range(hams + hams // 2):
+        N = int(rng.integers(1, 4))
+        commuting = k < hams
+        L = int(rng.integers(1, 5))
+        if commuting:
+            terms = [g for g, _ in commuting_obs(rng, N, L) if g.any()]
+        else:
+            terms = [gens.bits(rng, 2 * N) for _ in range(L)]
+            terms = [g for g in terms if g.any()]
+        keys = {tuple(t) for t in terms}
+        terms = [np.array(t) for t in keys]
+        if not terms:
+            continue
+        cs = np.round(rng.normal(size=len(terms)), 3) + 0.1 * np.sign(rng.normal(size=len(terms)))
+        H = pa.PauliPolynomial(np.array(terms), np.zeros(len(terms), dtype=np.int64)).set_cs(cs.astype(complex))
+        inp = {'H': poly_json(H), 'commuting': commuting}
+        b.case(sample=inp)
+        H0 = poly_dense(H)
+        ok, res = guard(b, 'SBRG', lambda: pcirc.SBRG(H), inp)
+        if not ok:
+            continue
+        heff, circ = res
+        if len(heff) and not (heff.gs[:, 0::2] == 0).all():
+            b.fail('SBRG_diagonal', 'effective Hamiltonian contains a non I/Z string', inp)
+        if not O.eq(poly_dense(H), H0):
+            b.fail('SBRG_arg', 'SBRG changed its argument', inp)
+        if commuting:
+            Hc = H.copy()
+            circ.forward(Hc)
+            if not np.allclose(poly_dense(Hc), poly_dense(heff) if len(heff) else 0 * H0, atol=1e-7):
+                b.fail('SBRG_exact', 'commuting Hamiltonian: circuit does not map H onto heff', inp)
+            elif not np.allclose(np.sort(np.linalg.eigvalsh(H0)), np.sort(np.linalg.eigvalsh(poly_dense(heff) if len(heff) else 0 * H0)), atol=1e-7):
+                b.fail('SBRG_spectrum', 'spectrum not preserved', inp)
+    return b.result()
+
+
+REGISTRY['c18_diagonalize'] = c18_diagonalize
+
+
+# ------------------------------------------------------------------------------------------ C19
+def c19_sampling(run, Nmax=3, count=25):
+    rng = np.random.default_rng(run.seed)
+    b = B('N <= %d, %d random tableaux (all 24 for N=1) x all ranks: 40 sampled group elements each, density-matrix expansion, classical-shadow snapshots with on-site / global / fixed circuits' % (Nmax, count))
+    from pyclifford import device as pdev
+    for N in range(1, Nmax + 1):
+        for gs, ps in tableaux(N, rng, count):
+            for r in range(N + 1):
+                st = mk_state(gs, ps, r)
+                R = O.rho(st)
+                inp = state_json(st)
+                ok, sm = guard(b, 'sample', lambda: st.sample(40), inp)
+                if ok:
+                    seen = set()
+                    for g, p in zip(sm.gs, sm.ps):
+                        b.case(sample={'state': inp, 'sampled': [lst(g), int(p)]})
+                        if abs(np.trace(R @ O.dense(g, p)) - 1) > 1e-9:
+                            b.fail('sample_member', 'sampled operator is not a stabilizer-group element with the right sign', {'state': inp, 'op': [lst(g), int(p)]})
+                        seen.add(tuple(g))
+                    if N - r >= 1 and len(seen) < 2:
+                        b.fail('sample_spread', '40 samples from a group of size %d are all equal' % 2 ** (N - r), inp)
+                ok, dm = guard(b, 'density_matrix', lambda: st.density_matrix, inp)
+                b.case()
+                if ok:
+                    keys = [tuple(g) for g in dm.gs]
+                    wts = dm.cs * (1j ** dm.ps)
+                    if len(keys) != 2 ** (N - r) or len(set(keys)) != len(keys) or not np.allclose(np.abs(wts), 2.0 ** -N) or not O.eq(poly_dense(dm), R):
+                        b.fail('density_matrix', 'density_matrix does not list every group element once with weight 2^-N', inp)
+        # classical shadows
+        for kind in ('onsite', 'global', 'fixed'):
+            gs, ps = gens.rand_tableau(rng, N)
+            base = mk_state(gs, ps, int(rng.integers(0, N + 1)))
+            snap0 = state_json(base)
+            R = O.rho(base)
+            if kind == 'onsite':
+                circ = pcirc.onsite_rcc(N)
+            elif kind == 'global':
+                circ = pcirc.global_rcc(N)
+            else:
+                circ = pcirc.CliffordCircuit(N)
+                for _ in range(3):
+                    circ.take(random_gate(rng, N)[0])
+            ok, shots = guard(b, 'snapshots', lambda: list(pdev.ClassicalShadow(base, circ).snapshots(6)), {'kind': kind, 'state': snap0})
+            if not ok:
+                continue
+            for s in shots:
+                b.case(sample={'kind': kind, 'N': N})
+                okT, why = O.tableau_ok(s.gs, s.ps, s.r)
+                if not okT:
+                    b.fail('snapshot_valid', 'snapshot is not a valid state: ' + why, {'kind': kind})
+                    continue
+                if np.trace(O.rho(s) @ R).real < 1e-12:
+                    b.fail('snapshot_overlap', 'snapshot has zero overlap with the measured state', {'kind': kind, 'state': snap0, 'snapshot': state_json(s)})
+            if state_json(base) != snap0:
+                b.fail('snapshot_base_changed', 'taking snapshots changed the base state', {'kind': kind})
+    return b.result()
+
+
+REGISTRY['c19_sampling'] = c19_sampling
+
+
+# ------------------------------------------------------------------------------------------ C20
+LETTERS = {(0, 0): 'I', (1, 0): 'X', (1, 1): 'Y', (0, 1): 'Z'}
+CODES = {(0, 0): 0, (1, 0): 1, (1, 1): 2, (0, 1): 3}
+PREFIX = {0: ['', '+'], 1: ['i', '+i'], 2: ['-'], 3: ['-i']}
+PCODE = {0: 4, 1: 6, 2: 5, 3: 7}
+
+
+def c20_formats(run, Nmax=3):
+    rng = np.random.default_rng(run.seed)
+    b = B('all 4^N strings x 4 phases x all accepted formats (string prefixes, code lists 0-7, numpy arrays, dicts with N), N <= %d; print-parse, tokenize-parse; indexing by int / slice / bool mask / index array; neg and multiplication by units' % Nmax, exhaustive=True)
+    for N in range(1, Nmax + 1):
+        S = O.all_strings(N)
+        for g in S:
+            letters = ''.join(LETTERS[(int(g[2 * k]), int(g[2 * k + 1]))] for k in range(N))
+            codes = [CODES[(int(g[2 * k]), int(g[2 * k + 1]))] for k in range(N)]
+            for p in range(4):
+                forms = [('str:' + pre, pre + letters) for pre in PREFIX[p]]
+                forms += [('codes', [PCODE[p]] + codes), ('array', np.array([PCODE[p]] + codes))]
+                if p == 0:
+                    forms += [('codes_nophase', list(codes)), ('tuple', tuple(codes)),
+                              ('dict', {k: c for k, c in enumerate(codes) if c})]
+                for fname, arg in forms:
+                    inp = {'format': fname, 'arg': arg if not isinstance(arg, np.ndarray) else lst(arg), 'N': N}
+                    b.case(sample=inp)
+                    ok, q = guard(b, 'parse_' + fname.split(':')[0], (lambda: pa.pauli(arg, N)) if fname == 'dict' else (lambda: pa.pauli(arg)), inp)
+                    if ok and not ((np.asarray(q.g) == g).all() and int(q.p) == p and len(q.g) == 2 * N):
+                        b.fail('parse', 'pauli(%r) = (%s,%s), expected (%s,%d)' % (arg if not isinstance(arg, np.ndarray) else lst(arg), lst(q.g), q.p, lst(g), p), inp)
+                o = P(g, p)
+                b.case()
+                back = pa.pauli(repr(o).replace(' ', ''))
+                if not ((back.g == g).all() and back.p == p):
+                    b.fail('print_parse', 'parsing the printed form %r gives (%s,%d)' % (repr(o), lst(back.g), back.p), {'g': lst(g), 'p': p})
+                tok = o.tokenize()[0]
+                back = pa.pauli(np.concatenate([tok[-1:], tok[:-1]]))
+                if not ((back.g == g).all() and back.p == p):
+                    b.fail('tokenize_parse', 'parsing the tokens %s gives (%s,%d)' % (lst(tok), lst(back.g), back.p), {'g': lst(g), 'p': p})
+                if o.N != N or o.weight() != sum(1 for k in range(N) if g[2 * k] or g[2 * k + 1]):
+                    b.fail('N_weight', 'N or weight wrong', {'g': lst(g)})
+                for c, dp in ((1, 0), (1j, 1), (-1, 2), (-1j, 3)):
+                    q = c * o
+                    if not ((q.g == g).all() and q.p == (p + dp) % 4 and type(q) is pa.Pauli):
+                        b.fail('rmul_unit', '%r * Pauli gives phase %r' % (c, q.p), {'g': lst(g), 'p': p, 'c': str(c)})
+                q = -o
+                if not ((q.g == g).all() and q.p == (p + 2) % 4):
+                    b.fail('neg', 'negation wrong', {'g': lst(g), 'p': p})
+        # lists
+        L = min(len(S), 6)
+        sel = [S[i] for i in rng.choice(len(S), L, replace=False)]
+        phs = rng.integers(0, 4, L)
+        strs = [PREFIX[int(p)][0] + ''.join(LETTERS[(int(g[2 * k]), int(g[2 * k + 1]))] for k in range(N)) for g, p in zip(sel, phs)]
+        lst_ = pa.paulis(*strs)
+        b.case()
+        if not ((lst_.gs == np.array(sel)).all() and (lst_.ps == phs).all() and len(lst_) == L and lst_.L == L and lst_.N == N):
+            b.fail('paulis', 'paulis(strings) wrong', {'strs': strs})
+        l2 = pa.paulis(strs)
+        l3 = pa.paulis([P(g, p) for g, p in zip(sel, phs)])
+        if not (same_list(l2, lst_) and same_list(l3, lst_)):
+            b.fail('paulis_formats', 'equivalent descriptions construct different lists', {'strs': strs})
+        if repr(lst_).replace(' ', '').split('\n') != [s if s[0] in '+-i' else '+' + s for s in [repr(P(g, p)).replace(' ', '') for g, p in zip(sel, phs)]] and \
+                repr(lst_).replace(' ', '').split('\n') != [repr(P(g, p)).replace(' ', '') for g, p in zip(sel, phs)]:
+            b.fail('repr_list', 'list repr is not the per-operator repr', {'strs': strs})
+        for k in range(L):
+            b.case()
+            it = lst_[k]
+            if not ((it.g == sel[k]).all() and it.p == phs[k]):
+                b.fail('getitem_int', 'list[%d] wrong' % k, {'strs': strs})
+            it = lst_[np.int64(k)]
+            if not ((it.g == sel[k]).all() and it.p == phs[k]):
+                b.fail('getitem_npint', 'list[np.int64(%d)] wrong' % k, {'strs': strs})
+        for sl in (slice(1, None), slice(None, -1), slice(None, None, 2), slice(L, None)):
+            b.case()
+            it = lst_[sl]
+            if not ((it.gs == np.array(sel)[sl]).all() and (it.ps == phs[sl]).all()):
+                b.fail('getitem_slice', 'list[%r] wrong' % (sl,), {'strs': strs})
+        mk = rng.integers(0, 2, L).astype(bool)
+        it = lst_[mk]
+        b.case()
+        if not ((it.gs == np.array(sel)[mk]).all() and (it.ps == phs[mk]).all()):
+            b.fail('getitem_mask', 'list[bool mask] wrong', {'strs': strs})
+        ix = rng.integers(0, L, 4)
+        it = lst_[ix]
+        if not ((it.gs == np.array(sel)[ix]).all() and (it.ps == phs[ix]).all()):
+            b.fail('getitem_index_array', 'list[index array] wrong', {'strs': strs})
+        nl = -lst_
+        il = 1j * lst_
+        if not ((nl.gs == lst_.gs).all() and (nl.ps == (phs + 2) % 4).all() and (il.ps == (phs + 1) % 4).all()):
+            b.fail('list_neg_rmul', 'list negation / multiplication by i wrong', {'strs': strs})
+        w = lst_.weight()
+        if not (np.asarray(w) == [sum(1 for k in range(N) if g[2 * k] or g[2 * k + 1]) for g in sel]).all():
+            b.fail('list_weight', 'list weight wrong', {'strs': strs})
+        tk = lst_.tokenize()
+        want = np.array([[CODES[(int(g[2 * k]), int(g[2 * k + 1]))] for k in range(N)] + [PCODE[int(p)]] for g, p in zip(sel, phs)])
+        if not (np.asarray(tk) == want).all():
+            b.fail('list_tokenize', 'token array wrong', {'strs': strs})
+    return b.result()
+
+
+REGISTRY['c20_formats'] = c20_formats
